@@ -11,7 +11,8 @@
 (* results (Trace.tla), with V from the trace header.                                *)
 EXTENDS QuicTokens, TLC, Json
 
-CONSTANTS Vmodel    \* validity used to check the lemma here (any V >= 2 gives the same classes)
+CONSTANTS Vmodel,   \* validity used to check the lemma here (any V >= 2 gives the same classes)
+          MaxSeq    \* longest tokenForConnID call sequence
 
 VARIABLE c
 
@@ -65,13 +66,29 @@ InGroup(x, g) ==
       [] g = "C"  -> x.ctx = SameCtx /\ x.dmg # "none"
       [] g = "D"  -> x.ctx # SameCtx /\ x.dmg # "none"
 
-Init == c \in [k : {"grp"}, g : Groups]
-Next == c.k = "grp" /\ c' \in {x \in CasesRetry : InGroup(x, c.g)}
+(* Stateless-reset call histories: every sequence of up to MaxSeq calls over three      *)
+(* connection IDs (with repeats), carried to tokenForConnID in fresh slices, through    *)
+(* ONE buffer overwritten in place, or alternating.  The token is a function of (key,   *)
+(* connection ID): independent of the call history and of which buffer carried the ID. *)
+Ids == {"A", "B", "C"}
+RECURSIVE IdSeqs(_)
+IdSeqs(n) == IF n = 0 THEN {<<>>} ELSE {Append(q, x) : q \in IdSeqs(n - 1), x \in Ids}
+CasesReset == {[k |-> "reset", seq |-> q, carrier |-> m] :
+                  q \in UNION {IdSeqs(n) : n \in 1..MaxSeq}, m \in {"fresh", "reuse", "mixed"}}
+
+\* the abstract generator: F is any injective function of (key, id); a history of calls returns
+\* F of each id whatever came before (checked here on the model, on the real code by Trace.tla)
+F(key, id) == <<key, id>>
+HistoryIndependent(q) == \A i, j \in 1..Len(q) : (q[i] = q[j]) <=> (F("k", q[i]) = F("k", q[j]))
+
+Init == c \in [k : {"grp"}, g : Groups \cup {"R"}]
+Next == c.k = "grp" /\ c' \in (IF c.g = "R" THEN CasesReset ELSE {x \in CasesRetry : InGroup(x, c.g)})
 Spec == Init /\ [][Next]_c
 
 D(x) == Delta(<<x.dm, x.ds, x.dns>>, Vmodel)
 
-Lemma == c.k = "grp" \/
+Lemma == c.k = "grp" \/ (c.k = "reset" /\ HistoryIndependent(c.seq)) \/
+    /\ c.k = "retry"
     /\ IsDelta(D(c))
     /\ c.ctx \in Contexts
     /\ AcceptedOnlyInContext(c.ctx, c.dmg, D(c), Vmodel)
@@ -83,5 +100,5 @@ Out(x) == [k |-> "retry", ctx |-> x.ctx, dmg |-> x.dmg, dm |-> x.dm, ds |-> x.ds
            dns |-> x.dns, ifrac |-> x.ifrac, olen |-> x.olen, fam |-> x.fam,
            exp |-> Expected(x.ctx, x.dmg, D(x), Vmodel)]
 
-Export == c.k = "grp" \/ PrintT(<<"CASE", ToJson(Out(c))>>)
+Export == c.k = "grp" \/ PrintT(<<"CASE", ToJson(IF c.k = "reset" THEN c ELSE Out(c))>>)
 =============================================================================
